@@ -42,18 +42,16 @@ End Rx.
 
 (* "." does not match a newline (no (?s) flag) *)
 Definition not_nl (x : N) : bool := negb (x =? c_nl).
-(* getMoreSpecificPatterns replaces "\?" by "[^\*%]" FIRST and then rewrites "\*" -> ".*" and
-   "%" -> ".*" in the whole text, including inside the class it has just inserted: the class
-   that reaches regexp.Compile is "[^.*.*]", i.e. every rune except "." and "*" (a negated
-   class does match a newline).  The model follows the code as it is. *)
-Definition c_dot : N := 46.
-Definition not_wild (x : N) : bool := negb ((x =? c_dot) || (x =? c_star)).
+(* getMoreSpecificPatterns: "\*" -> ".*", "%" -> ".*", and LAST "\?" -> "[^\*%]" (repaired in
+   d28426b: expanding the "?" first let the later replacements rewrite the class it had just
+   inserted).  A negated class does match a newline. *)
+Definition not_wild (x : N) : bool := negb ((x =? c_star) || (x =? c_pct)).
 
 (* MatchTablePattern(pattern, table) *)
 Definition match_table_pattern (p n : str) : bool := rx not_nl not_nl (compile p) n.
 
 (* getMoreSpecificPatterns(less).MatchString(a): the pattern text [a] is matched by
-   [less] read with "?" -> the class above *)
+   [less] read with "?" -> [^\*%] *)
 Definition more_specific_re (less a : str) : bool := rx not_wild not_nl (compile less) a.
 
 (* normalizePattern: "*" -> "%", then "%%" -> "%" to a fix-point (runs collapse) *)
